@@ -69,6 +69,11 @@ CHECKS["C11"] = dict(
     text="Exhaustive over all balanced flat node streams of length <= 5 (quick) / 7 (thorough) through seven routes (DFXP, SAMI, WebVTT, legacy and single-position DFXP, DFXP->SAMI, SAMI->DFXP); random streams of 5-30 nodes beyond; plus balance of every caption the six readers return on the corpus. Per visible character the (italic, bold, underline) flags and the nesting of the emitted tags are computed and compared by TLC.",
     design="4 C11")
 
+CHECKS["C07"] = dict(
+    technique="TLA+ spec DfxpDoc.tla: TLC checks the region-table design model (unique layouts, three-level fallback, cleanup) against the document requirement on all 5^5 layout assignments (MC_DfxpDoc) and judges the structure projected from strictly parsed output of the three DFXP writers (Trace_DfxpDoc)",
+    text="Exhaustive over the 3125 layout assignments (set / language / two captions / styled span over {none, A, B, default-equal, webvtt-only}) and over 11 string positions x 8 metacharacter classes, for the three DFXP writers; sets returned by all six readers on the corpus and random API-built sets with printable-Unicode strings under random options and force values beyond. Well-formedness is asked of expat and lxml (no recovery); ids, references, divs and paragraphs are judged by TLC.",
+    design="4 C07")
+
 NOT_YET = {}
 
 
